@@ -1,6 +1,6 @@
 (* Extract/ExC09.v -- extraction for family c09 *)
 From Coq Require Import Extraction ExtrOcamlBasic ExtrOcamlString.
-From AT Require Import Num Vec Aff Farkas FM Equiv PTree Cells Abs Reduce Paths PolyGen PolyGenProofs PolyGenUpd.
+From AT Require Import Num Vec Aff Farkas FM Equiv PTree Cells Abs Reduce Paths PolyGen PolyGenProofs PolyGenUpd PolyGenSub.
 Extraction Blacklist List String Int.
 Extraction "model_c09.ml"
   qc_of_float qz qfrac qleb qltb qeqb Qcplus Qcmult Qcopp Qcminus Qcdiv
@@ -12,4 +12,5 @@ Extraction "model_c09.ml"
   aget aset alen akeys abs_at abs_tree
   binb fullb follow path_preds edge_row in_closedb
   pgen_new pgen_run dabs f_new f_run preorder edge_rows ginvb
-  pgen_run_upd upd_node.
+  pgen_run_upd upd_node
+  f_new_sub start_rows sub_spec_run gsubb.
